@@ -60,7 +60,8 @@ def _random(draw):
             perm = draw(st.permutations(list(range(n))))
             pos = {v: i for i, v in enumerate(perm)}
             edges = [[a, b] if pos[a] < pos[b] else [b, a] for a, b in edges if a != b]
-        return {"kind": "graph", "n": n, "edges": edges, "names": draw(st.booleans())}
+        return {"kind": "graph", "n": n, "edges": edges, "names": draw(st.booleans()), "insertion": list(draw(st.permutations(list(range(n))))),
+                "lists": draw(st.booleans())}
     nf = draw(st.integers(1, 5))
     fams = [f"g{i}" for i in range(nf)]
     order = draw(st.permutations(fams))
@@ -100,10 +101,20 @@ def check(case):
         return Result(len(exp) != 1 and len(fams) >= 2, ["prec", "no_order" if not exp else "orders>=1"], evals=1)
     n = case["n"]
     name = (lambda v: f"v{v}") if case.get("names") else (lambda v: v)
-    graph = {name(v): set() for v in range(n)}
+    # a graph is a dictionary: the order in which its vertices were inserted is presentation, not content (the
+    # insertion order is a permutation derived from the case; successors are given as sets or, when `lists`, as lists)
+    order = list(range(n))
+    if case.get("insertion"):
+        order = [v for v in case["insertion"] if v < n] + [v for v in range(n) if v not in case["insertion"]]
+    elif n >= 2:
+        k = (len(case["edges"]) * 7 + n) % n
+        order = order[k:][::-1] + order[:k]
+    graph = {name(v): set() for v in order}
     for a, b in case["edges"]:
         graph[name(a)].add(name(b))
-    snapshot = {k: set(v) for k, v in graph.items()}
+    if case.get("lists"):
+        graph = {k: sorted(v, key=str, reverse=True) for k, v in graph.items()}
+    snapshot = {k: (list(v) if isinstance(v, list) else set(v)) for k, v in graph.items()}
     verts = list(graph)
     if any(a in graph[a] for a in graph):
         exp = []
